@@ -139,9 +139,10 @@ pub fn play(mut story: Story, opts: &Options) -> anyhow::Result<()> {
                     if let Err(e) = story.choose_path_string(&path, true, None) {
                         if opts.json_output {
                             println!(
-                                "{{\"issues\": [\"Error diverting to '{}': {}\"]}}",
-                                path,
-                                e.to_string().replace('"', "\\\"")
+                                "{{\"issues\": [\"{}\"]}}",
+                                escape_json_string(&format!(
+                                    "Error diverting to '{path}': {e}"
+                                ))
                             );
                         } else {
                             eprintln!("<error diverting to '{path}': {e}>");
@@ -271,6 +272,8 @@ fn escape_json_string(s: &str) -> String {
             '\n' => out.push_str("\\n"),
             '\r' => out.push_str("\\r"),
             '\t' => out.push_str("\\t"),
+            // JSON does not allow any other control character unescaped
+            c if (c as u32) < 0x20 => out.push_str(&format!("\\u{:04x}", c as u32)),
             c => out.push(c),
         }
     }
